@@ -81,6 +81,7 @@ func (r Response) MarshalJSON() ([]byte, error) {
 		}{
 			Description: r.ResponseProps.Description,
 			Schema:      r.ResponseProps.Schema,
+			Headers:     r.ResponseProps.Headers,
 			Examples:    r.ResponseProps.Examples,
 		})
 	}
